@@ -241,3 +241,138 @@ func ruleE8(p *Prog, r *Report) {
 	}
 	r.Floor(R, "Retrieve calls in containers and iterators", 5, n)
 }
+
+// R9 the parent is notified on success paths only.
+//
+// notifyParentIfNeeded makes the parent re-set this container in itself and store its slab (and its ancestors do
+// the same). A rejected request must leave no trace (C18): the notification may not be deferred (a deferred call
+// also runs on the early returns of rejected requests) and may not sit in the handling of a failure.
+func ruleR9(p *Prog, r *Report) {
+	const R = "R9"
+	n := 0
+	count := map[string]int{}
+	for _, top := range p.TopFuncs() {
+		if p.IsTestFile(top.Pos()) {
+			continue
+		}
+		eachInstrDeep(top, func(fn *ssa.Function, in ssa.Instruction) {
+			c, ok := in.(ssa.CallInstruction)
+			if !ok || calleeName(c) != "notifyParentIfNeeded" {
+				return
+			}
+			n++
+			count[p.Name(top)]++
+			cons := fmt.Sprintf("notify-on-success-only:%s#%d", p.Name(top), count[p.Name(top)])
+			_, isDefer := in.(*ssa.Defer)
+			inDeferred := false
+			if fn != top {
+				eachInstrDeep(top, func(_ *ssa.Function, y ssa.Instruction) {
+					if d, ok := y.(*ssa.Defer); ok && closureOf(d.Call.Value) == fn {
+						inDeferred = true
+					}
+				})
+			}
+			switch {
+			case isDefer || inDeferred:
+				r.Bad(R, cons, p.InstrPos(in), "the parent notification is deferred: it also runs on the early returns of rejected requests (absent key, failing hash-input provider), so a rejected request re-sets and stores the parent and its ancestors - a pending write and an identical register rewritten at the next commit")
+			case inErrorHandler(fn, in.Block()):
+				r.Bad(R, cons, p.InstrPos(in), "the parent is notified while a failure is being handled: a failed request leaves a pending write in the ancestors")
+			default:
+				r.Ok(R, cons, p.InstrPos(in), "notified on a success path, not deferred")
+			}
+		})
+	}
+	r.Floor(R, "parent notifications", 5, n)
+}
+
+// L34 what was put into the encoder's scratch buffer is written out before another encoder runs.
+//
+// Encoder.Scratch is one 64-byte buffer shared by every routine that receives the encoder. A routine that fills
+// it (a slab id, a length head) and writes it out later must not hand the encoder to another routine in between:
+// that routine may use the same buffer (the compact-map entry assembles digests there), and the bytes written
+// afterwards are no longer the ones that were prepared (a sibling link that points nowhere).
+func ruleL34(p *Prog, r *Report) {
+	const R = "L34"
+	n := 0
+	count := map[string]int{}
+	isScratchOf := func(v ssa.Value) (ssa.Value, bool) {
+		// v is enc.Scratch[...] (a slice of the Scratch array field of an Encoder)
+		sl, ok := canon(v).(*ssa.Slice)
+		if !ok {
+			return nil, false
+		}
+		fa, ok := sl.X.(*ssa.FieldAddr)
+		if !ok {
+			return nil, false
+		}
+		if _, nm := structFieldName(fa.X.Type(), fa.Field); nm != "Scratch" || !isEncoderPtr(fa.X.Type()) {
+			return nil, false
+		}
+		return canon(fa.X), true
+	}
+	for _, top := range p.TopFuncs() {
+		if p.IsTestFile(top.Pos()) {
+			continue
+		}
+		eachInstr(top, func(in ssa.Instruction) {
+			// a fill: a call (other than a write-out) that receives enc.Scratch[..], or a store into enc.Scratch[i]
+			c, ok := in.(ssa.CallInstruction)
+			if !ok {
+				return
+			}
+			nm := calleeName(c)
+			if nm == "Write" || nm == "EncodeRawBytes" || nm == "EncodeBytes" {
+				return
+			}
+			var enc ssa.Value
+			for _, a := range c.Common().Args {
+				if e, ok := isScratchOf(a); ok {
+					enc = e
+				}
+			}
+			if enc == nil {
+				return
+			}
+			n++
+			count[p.Name(top)]++
+			cons := fmt.Sprintf("scratch-written-out-first:%s#%d", p.Name(top), count[p.Name(top)])
+			var bad ssa.Instruction
+			reachFrom(top, in, nil, func(y ssa.Instruction) bool {
+				if bad != nil || y == in {
+					return bad != nil
+				}
+				cy, ok := y.(ssa.CallInstruction)
+				if !ok {
+					return false
+				}
+				ny := calleeName(cy)
+				// the write-out of the scratch ends the obligation on this path
+				for _, a := range cy.Common().Args {
+					if e, ok := isScratchOf(a); ok && sameValue(e, enc) && (ny == "Write" || ny == "EncodeRawBytes" || ny == "EncodeBytes") {
+						return true
+					}
+				}
+				// another fill of the same buffer also ends it (the earlier content is given up on purpose)
+				for _, a := range cy.Common().Args {
+					if e, ok := isScratchOf(a); ok && sameValue(e, enc) {
+						return true
+					}
+				}
+				// the encoder handed on
+				for _, a := range cy.Common().Args {
+					if isEncoderPtr(a.Type()) && sameValue(a, enc) {
+						bad = y
+						return true
+					}
+				}
+				return false
+			})
+			if bad != nil {
+				r.Bad(R, cons, p.InstrPos(in), "the scratch buffer is filled here and the encoder is handed to another routine at "+p.InstrPos(bad)+" before the buffer is written out: that routine may use the same scratch buffer, so the bytes written afterwards are not the ones prepared here")
+			} else {
+				r.Ok(R, cons, p.InstrPos(in), "written out (or refilled) before the encoder is handed on")
+			}
+		})
+	}
+	r.Ok(R, "scratch-fills", "-", fmt.Sprintf("%d fills of an encoder's scratch buffer by a call", n))
+}
